@@ -688,6 +688,17 @@ func genInvoke(r *rng, tier string) interface{} {
 		c.Value = ""
 		return invokeIn{Expr: x, Ctx: c}
 	}
+	if r.chance(4) {
+		// case-insensitive matching where lower-casing changes the length of the text (İ -> i + combining dot), or
+		// touches non-ASCII capitals; also a typed word as long as a candidate, or longer
+		x := &xExpr{K: "plain", Ps: []string{"İzmir/Konak", "İzmir/Bornova", "Éa/b", "README", "a", "act", "action"}}
+		var e *xExpr = x
+		if r.chance(60) {
+			e = &xExpr{K: "multiParts", Xs: []string{"/"}, E: x}
+		}
+		c := xCtx{CI: true, Value: pick(r, []string{"i", "izmir/", "izmir/k", "İ", "é", "éa/", "readme", "README", "ACTI", "ACTIONS", "a"})}
+		return invokeIn{Expr: e, Ctx: c}
+	}
 	if r.chance(6) {
 		// case-insensitive matching with a typed word that differs from a prefix only in case
 		p := pick(r, []string{"file://", "ab", "x=", "Pre"})
